@@ -388,16 +388,25 @@ type style struct {
 func (s *sc) randomRun(r *kit.Rand, nOps int, st style) {
 	s.op("start")
 	blocksAt := map[int][]string{} // height -> names used
+	// The node's own proposal block o<h> embeds its LastCommit, which still grows while the node
+	// waits in NewHeight (late precommits of height h-1, its own included): the name is used only
+	// once the node has left NewHeight at height h, when the block is determined.
+	okOwn := func(h int) bool {
+		hh, _, st := s.hrs()
+		return hh == h && st > cstypes.RoundStepNewHeight
+	}
 	pick := func(h int) string {
 		names := blocksAt[h]
 		if len(names) > 0 && !r.Chance(25) {
-			return kit.Pick(r, names)
+			if nm := kit.Pick(r, names); nm[0] != 'o' || okOwn(h) {
+				return nm
+			}
 		}
 		var nm string
 		switch {
 		case r.Chance(8):
 			nm = fmt.Sprintf("x%d", h*10+r.Intn(3)+1)
-		case r.Chance(30):
+		case r.Chance(30) && okOwn(h):
 			nm = fmt.Sprintf("o%d", h)
 		default:
 			nm = fmt.Sprintf("b%d", h*10+r.Intn(4)+1)
@@ -420,8 +429,10 @@ func (s *sc) randomRun(r *kit.Rand, nOps int, st style) {
 				focus[key] = w.nameOfHash(rs.LockedBlock.Hash(), int64(h))
 			case rs.ValidBlock != nil && r.Chance(60):
 				focus[key] = w.nameOfHash(rs.ValidBlock.Hash(), int64(h))
-			case s.proposer(h, rd) == s.me:
+			case s.proposer(h, rd) == s.me && okOwn(h):
 				focus[key] = fmt.Sprintf("o%d", h)
+			case s.proposer(h, rd) == s.me:
+				// not determined yet: decide again once the node has left NewHeight
 			default:
 				focus[key] = pick(h)
 			}
@@ -429,7 +440,13 @@ func (s *sc) randomRun(r *kit.Rand, nOps int, st style) {
 				focus[key] = pick(h)
 			}
 		}
-		fb := focus[key]
+		fb, haveFocus := focus[key]
+		if !haveFocus {
+			fb = pick(h)
+		}
+		if fb[0] == 'o' && !okOwn(h) {
+			fb = fmt.Sprintf("b%d", h*10+1)
+		}
 		if s.qlen() > 0 && r.Chance(75) {
 			s.op("internal")
 			continue
